@@ -1,4 +1,5 @@
 import Hcl.Proofs.StepSound
+import Hcl.Proofs.Accepted
 open Rust
 
 /-!
@@ -60,3 +61,50 @@ theorem C07_expression {fl : Flags} {Γ : Ctx} {κ σ : Env} (hΓ : CtxOK Γ) (h
   cases hd : Spec.dv Γ (val σ) e with
   | none => simp only [hd] at h; exact Or.inr h
   | some v => simp only [hd] at h; exact Or.inl ⟨v, h⟩
+
+/-- **C07 for every accepted program** (no hypothesis about the schedule): if the model of `Program::new`
+    accepts a statement list — under any iteration order of its hash tables — then from the initial state, on any
+    memory image, any number of cycles either all succeed, each ending in a well-typed state, or the run stops with
+    an explicit division-by-zero report.  No panic site of `Program::initial_state`, `step`,
+    `process_register_banks`, `evaluate` or the operators is reachable, and no run-time width or
+    undeclared-wire error can occur. -/
+theorem C07_accepted (fl : Flags) (cls : CharClass) (o : Orders) (stmts : List Stmt) (p : Program)
+    (ho : OrdersOK o) (hwf : StmtsWF stmts)
+    (h : Program.new fl cls o y86FixedFunctions stmts = .ok p) (mem : Mem) (hmem : mem.BytesOK) (n : Nat) :
+    ∃ s0, State.init p mem = .ok s0 ∧
+      ((∃ s', runN fl p n s0 = .ok s' ∧ s'.cycle = n) ∨ runN fl p n s0 = .error .divideByZero) := by
+  obtain ⟨W, known, hp, vals, hv1, hv2, hv3, hv4⟩ := Program_new_sound fl cls o stmts p ho hwf h
+  refine ⟨{ values := vals, regs := List.replicate 16 0, mem := mem }, ?_, ?_⟩
+  · simp [State.init, hv1, bind, Except.bind, pure, Except.pure]
+  · have hs : StateOK W.toCtx { values := vals, regs := List.replicate 16 0, mem := mem } :=
+      { vals := hv2, regsLen := by simp, regsBound := by intro r hr; simp at hr; rw [hr]; simp [U64]
+        memBytes := hmem }
+    rcases C07_soundness hp n _ hs hv3 hv4 with ⟨s', h1, _, h3⟩ | h1
+    · exact Or.inl ⟨s', h1, by simpa using h3⟩
+    · exact Or.inr h1
+
+#print axioms C07_accepted
+
+/-- the identity iteration order is a permutation -/
+theorem ordersOK_default : OrdersOK {} :=
+  ⟨fun _ => List.Perm.refl _, fun _ _ => List.Perm.refl _, fun _ => List.Perm.refl _, fun _ _ => List.Perm.refl _⟩
+
+/-- the hypotheses of `C07_accepted` are satisfiable: a counter in a register bank driving `Stat`, a data-memory
+    read and the register file (accepted by the model with the default flags) -/
+def exampleStmts : List Stmt :=
+  [ .consts [⟨"ONE", .const ⟨1, .unlimited⟩⟩],
+    .bank ⟨"cC", [⟨"n", .bits 8, .const ⟨0, .unlimited⟩⟩]⟩,
+    .wires [⟨"sum", .bits 64⟩],
+    .assigns [⟨["c_n"], .bin .add (.wire "C_n") (.wire "ONE")⟩],
+    .assigns [⟨["pc"], .const ⟨0, .unlimited⟩⟩],
+    .assigns [⟨["mem_addr"], .const ⟨8, .unlimited⟩⟩, ⟨["mem_readbit"], .const ⟨1, .unlimited⟩⟩,
+              ⟨["mem_writebit"], .const ⟨0, .unlimited⟩⟩],
+    .assigns [⟨["reg_srcA"], .const ⟨3, .bits 4⟩⟩],
+    .assigns [⟨["sum"], .bin .add (.wire "mem_output") (.wire "reg_outputA")⟩],
+    .assigns [⟨["reg_dstE"], .const ⟨0, .bits 4⟩⟩, ⟨["reg_inputE"], .wire "sum"⟩],
+    .assigns [⟨["Stat"], .mux (.cons (.bin .eq (.wire "C_n") (.const ⟨2, .unlimited⟩)) (.const ⟨2, .bits 3⟩)
+                               (.cons (.const ⟨1, .unlimited⟩) (.const ⟨1, .bits 3⟩) .nil))⟩] ]
+
+
+example : (match Program.new {} {} {} y86FixedFunctions exampleStmts with | .ok _ => true | .error _ => false) = true := by
+  decide +kernel
